@@ -67,9 +67,9 @@ func (Prop) Assumptions() []string {
 // ---------------------------------------------------------------- generation
 
 var derivations = []string{"session", "session", "with_context", "debug", "begin"}
-var readFins = []string{"find", "find", "first", "take", "count", "pluck", "rows", "scan", "find_in_batches", "first_or_init"}
-var writeFins = []string{"update", "updates", "delete", "create"}
-var methods = []string{"where", "where", "where", "or", "not", "select", "omit", "order", "order", "limit", "offset", "group", "having", "joins", "joins", "distinct", "unscoped", "scopes", "preload", "returning", "returning", "order_clause", "locking", "on_conflict", "table", "model", "attrs", "assign", "where_sub", "from_clause", "group_clause", "limit_clause", "insert_modifier", "inner_joins", "select_expr", "omit_assoc"}
+var readFins = []string{"find", "find", "first", "take", "count", "pluck", "rows", "scan", "find_in_batches", "first_or_init", "count_direct", "count_direct", "pluck_direct", "rows_direct", "scan_direct", "last"}
+var writeFins = []string{"update", "updates", "delete", "create", "update_direct"}
+var methods = []string{"model", "model", "where", "where", "where", "or", "not", "select", "omit", "order", "order", "limit", "offset", "group", "having", "joins", "joins", "distinct", "unscoped", "scopes", "preload", "returning", "returning", "order_clause", "locking", "on_conflict", "table", "model", "attrs", "assign", "where_sub", "from_clause", "group_clause", "limit_clause", "insert_modifier", "inner_joins", "select_expr", "omit_assoc"}
 
 func genStep(r *core.Rand, nHandles int, palette []string) Step {
 	st := Step{M: r.Pick(palette), V: r.Intn(6), S: fmt.Sprintf("s%d", r.Intn(50)), N: r.Intn(40)}
@@ -163,7 +163,7 @@ func (Prop) Gen(r *core.Rand, tier string) interface{} {
 }
 
 func isWrite(e string) bool {
-	return e == "update" || e == "updates" || e == "delete" || e == "create"
+	return e == "update" || e == "updates" || e == "delete" || e == "create" || e == "update_direct"
 }
 
 func isDerivation(e string) bool {
@@ -451,6 +451,40 @@ func finish(e *env.Env, db *gorm.DB, ch Chain, dry bool) (o obs) {
 		var n int64
 		tx = db.Model(&fam.User{}).Count(&n)
 		o.Rows = fmt.Sprint(n)
+	// the *_direct finishers run on the chain value as it is (no Model(...) call of
+	// their own, which would be one more derivation step): executed from a handle
+	// with no steps in between they run directly on the reusable handle
+	case "count_direct":
+		var n int64
+		tx = db.Count(&n)
+		o.Rows = fmt.Sprint(n)
+	case "pluck_direct":
+		var names []string
+		tx = db.Pluck("name", &names)
+		o.Rows = strings.Join(names, ",")
+	case "rows_direct":
+		rows, err := db.Rows()
+		tx = db
+		if err != nil {
+			o.Err = err.Error()
+		} else if rows != nil {
+			n := 0
+			for rows.Next() {
+				n++
+			}
+			rows.Close()
+			o.Rows = fmt.Sprint(n)
+		}
+	case "scan_direct":
+		var us []fam.User
+		tx = db.Scan(&us)
+		o.Rows = renderUsers(us)
+	case "last":
+		var u fam.User
+		tx = db.Last(&u)
+		o.Rows = renderUsers([]fam.User{u})
+	case "update_direct":
+		tx = db.Where("id > ?", 0).Update("name", "upd-direct")
 	case "pluck":
 		var names []string
 		tx = db.Model(&fam.User{}).Pluck("name", &names)
